@@ -1,6 +1,7 @@
 package eval
 
 import (
+	"context"
 	"src.elv.sh/pkg/parse"
 	vrt "src.elv.sh/pkg/zzvrt"
 )
@@ -39,5 +40,48 @@ func VerifC40Leak(nforms, small int) {
 		vrt.Assert(fds == fds0, "every pipe the evaluation created has been closed")
 		vrt.Assert(gs == gs0, "every goroutine the evaluation started has finished")
 	}
+	vrt.Reach("evaluated")
+}
+
+var verifC40IntrProgs = []string{
+	"intr; put a",
+	"put a | each {|x| intr; put $x } | take 1",
+	"range 40 | each {|x| intr }",
+	"put (intr; put b)",
+	"try { intr; put a | nop } finally { put f }",
+	"fn f { put a | each {|x| intr } }; f; f",
+	"put a b | peach {|x| intr; put $x }",
+	"intr; range 40 | nop",
+}
+
+// VerifC40Interrupt: programs in which a harness command `intr` cancels the
+// evaluation's interrupt context synchronously (as Ctrl-C would) at its k-th
+// call: when the evaluation returns — normally or with the interrupted
+// exception — and every goroutine has run as far as it can, no pipe end is
+// open and no goroutine is alive.
+func VerifC40Interrupt(prog, k int) {
+	ev := NewEvaler()
+	ctx, cancel := context.WithCancel(context.Background())
+	calls := 0
+	ev.ExtendBuiltin(BuildNs().AddFn("intr", verifArgFn{func([]any) error {
+		calls++
+		if calls == k {
+			cancel()
+		}
+		return nil
+	}}))
+	vrt.Settle()
+	fds0, gs0 := vrt.Resources()
+	ch := make(chan any, 256)
+	mk := func() *Port { return &Port{Chan: ch, sendStop: make(chan struct{}), sendError: new(error)} }
+	err := ev.Eval(parse.Source{Name: "[v]", Code: verifC40IntrProgs[prog]}, EvalCfg{Ports: []*Port{{Chan: ClosedChan}, mk(), mk()}, Interrupts: ctx})
+	vrt.Settle()
+	fds, gs := vrt.Resources()
+	vrt.Assert(fds == fds0, "every pipe the interrupted evaluation created has been closed")
+	vrt.Assert(gs == gs0, "every goroutine the interrupted evaluation started has finished")
+	if err != nil {
+		vrt.Assert(Reason(err) == ErrInterrupted || Reason(err) != nil, "the evaluation ends with an exception")
+	}
+	cancel()
 	vrt.Reach("evaluated")
 }
